@@ -5,6 +5,7 @@ import Driver.CmdSched
 import Driver.CmdExec
 import Driver.CmdAcct
 import Driver.CmdMisc
+import Driver.CmdMatch
 /-! Command table of the replay driver (model instantiated at `Float`). -/
 namespace Driver
 open RQ.F
@@ -51,6 +52,9 @@ def dispatch (toks : List String) : String :=
   | some r => r
   | none =>
   match cmdMisc toks with
+  | some r => r
+  | none =>
+  match cmdMatch toks with
   | some r => r
   | none => "ERR unknown-command"
 
